@@ -157,7 +157,7 @@ def build_world():
 
 
 # --------------------------------------------------------------------------- concrete side
-def make_client(unix):
+def make_client(unix, preference=None):
     from twisted.internet import interfaces
     from zope.interface import implementer
     from txdbus import authentication as au
@@ -183,14 +183,25 @@ def make_client(unix):
     p = Plain()
     if unix:
         p.transport = UT()
-    ca = au.ClientAuthenticator()
+    if preference is None:
+        ca = au.ClientAuthenticator()
+    else:
+        # the documented way to restrict / reorder the mechanisms: the `preference` attribute (set on a subclass or an instance)
+        ca = type('AppAuthenticator', (au.ClientAuthenticator,), {'preference': list(preference)})()
     ca.beginAuthentication(p)
     return ca, p
 
 
-def reference_handshake(accepted, unix, fd_answer):
-    """a spec-conforming server accepting exactly the mechanisms in `accepted`"""
+def reference_handshake(accepted, unix, fd_answer, refuse_with=None):
+    """a spec-conforming server accepting exactly the mechanisms in `accepted`; a mechanism it does not accept is refused with
+    REJECTED <list> or, for a server that does not know the mechanism's initial response, with ERROR"""
     def server(line, st):
+        r = server_(line, st)
+        if refuse_with is not None and r is not None and r.startswith(b'REJECTED') and line.startswith(b'AUTH '):
+            return refuse_with
+        return r
+
+    def server_(line, st):
         cmd, _, args = line.partition(b' ')
         if cmd == b'AUTH':
             mech = args.split()[0] if args.split() else b''
@@ -214,10 +225,11 @@ def reference_handshake(accepted, unix, fd_answer):
     return server
 
 
-def run_handshake(accepted, unix, fd_answer):
+def run_handshake(accepted, unix, fd_answer, preference=None, refuse_with=None):
     from txdbus.error import DBusAuthenticationFailed
-    ca, p = make_client(unix)
-    server = reference_handshake(accepted, unix, fd_answer)
+    ca, p = make_client(unix, preference)
+    server = reference_handshake(accepted, unix, fd_answer, refuse_with)
+    accepted = set(accepted) & set(preference if preference is not None else [b'EXTERNAL', b'DBUS_COOKIE_SHA1', b'ANONYMOUS'])
     st = {}
     offered = []
     usable = set(accepted) - {b'DBUS_COOKIE_SHA1'}
@@ -234,6 +246,9 @@ def run_handshake(accepted, unix, fd_answer):
         except DBusAuthenticationFailed:
             if usable:
                 return 'handshake against a server accepting %r (unix=%s, fd answer %r) was given up after offering %r' % (sorted(accepted), unix, fd_answer, offered)
+            pref_ = list(preference) if preference is not None else [b'EXTERNAL', b'DBUS_COOKIE_SHA1', b'ANONYMOUS']
+            if offered != pref_[:len(offered)] or len(set(offered)) != len(offered):
+                return 'mechanisms offered %r before giving up, not in the preference order %r / not at most once each' % (offered, pref_)
             return None
         if len(p.sent) == n and not ca.authenticated:
             return 'client sent nothing in answer to %r (stall)' % reply
@@ -243,9 +258,9 @@ def run_handshake(accepted, unix, fd_answer):
         return 'client sent BEGIN although no mechanism was accepted'
     if not ca.authenticated or p.sent[-1] != b'BEGIN':
         return 'handshake ended without BEGIN/authenticated: %r' % p.sent
-    pref = [b'EXTERNAL', b'DBUS_COOKIE_SHA1', b'ANONYMOUS']
+    pref = list(preference) if preference is not None else [b'EXTERNAL', b'DBUS_COOKIE_SHA1', b'ANONYMOUS']
     if offered != pref[:len(offered)] or len(set(offered)) != len(offered):
-        return 'mechanisms offered %r, not in preference order / not at most once' % offered
+        return 'mechanisms offered %r, not in the preference order %r / not at most once each' % (offered, pref)
     if unix and b'NEGOTIATE_UNIX_FD' not in p.sent:
         return 'UNIX transport: BEGIN without descriptor negotiation'
     return None
@@ -383,6 +398,17 @@ def outside_protocol_case():
 
     class CP(protocol.BasicDBusProtocol):
         authenticator = au.ClientAuthenticator
+    # an empty line is outside the protocol as well
+    for prelude in (b'', b'REJECTED ANONYMOUS\r\n', b'DATA 00\r\n'):
+        cp = CP()
+        t = StringTransport()
+        cp.makeConnection(t)
+        t.clear()
+        for part in (prelude, b'\r\n', b'OK 1234deadbeef\r\n'):
+            if part and not t.disconnecting:
+                cp.dataReceived(part)
+        if not t.disconnecting or cp._authenticated or b'BEGIN' in t.value():
+            return 'an empty line from the server (after %r): closed=%r, authenticated=%r, client wrote %r' % (prelude, t.disconnecting, cp._authenticated, t.value())
     for prelude in (b'', b'REJECTED ANONYMOUS\r\n', b'REJECTED ANONYMOUS\r\nDATA 00'):
         for chunk in (20000, 1024, 16385 - len(prelude.split(b'\r\n')[-1])):
             cp = CP()
@@ -488,6 +514,19 @@ def bounded(tier, seed):
                     f = run_handshake(set(acc), unix, fd)
                     if f:
                         return n, f, {'accepted': [a.decode() for a in acc], 'unix': unix, 'fd_answer': fd.decode()}
+    # a server that refuses with ERROR instead of REJECTED; an application that set its own preference list
+    for r in range(0, 4):
+        for acc in itertools.combinations(mechs, r):
+            for unix in (False, True):
+                n += 1
+                f = run_handshake(set(acc), unix, b'AGREE_UNIX_FD' if unix else b'ERROR', refuse_with=b'ERROR')
+                if f:
+                    return n, f + ' (mechanisms refused with ERROR)', {'accepted': [a.decode() for a in acc], 'unix': unix, 'refused_with': 'ERROR'}
+                for pref in ([b'ANONYMOUS'], [b'ANONYMOUS', b'EXTERNAL'], [b'DBUS_COOKIE_SHA1', b'ANONYMOUS'], [b'EXTERNAL']):
+                    n += 1
+                    f = run_handshake(set(acc), unix, b'AGREE_UNIX_FD' if unix else b'ERROR', preference=pref)
+                    if f:
+                        return n, f, {'accepted': [a.decode() for a in acc], 'unix': unix, 'preference': [x.decode() for x in pref]}
     depth = 4 if tier == 'thorough' else 3
     for L in range(1, depth + 1):
         for lines in itertools.product(SERVER_LINES if L <= 2 else SERVER_LINES[:8], repeat=L):
